@@ -263,9 +263,19 @@ def acceptOwnership (s : CState) (env : Env) (info : Info) : R Out := do
   let o ← (ownOf s).accept env.seconds info.sender
   pure (setOwn s o, [])
 
+/-- the `while taken < limit` loop of `paginate_map`: walk the range, keep the values the filter
+accepts, count only those -/
+def paginateLoop {α} (f : α → Bool) (limit : Nat) : List α → Nat → List α
+  | [], _ => []
+  | x :: rest, taken =>
+    if taken < limit then
+      if f x then x :: paginateLoop f limit rest (taken + 1)
+      else paginateLoop f limit rest taken
+    else []
+
 /-- `paginate_map` over an `AMap` (ascending): exclusive cursor, the limit counts matches only -/
 def paginate {α} (m : AMap α) (startAfter : Option Nat) (limit : Option Nat) (f : α → Bool) : List α :=
-  (((m.after startAfter).map (·.2)).filter f).take (limit.getD U32.max)
+  paginateLoop f (limit.getD U32.max) ((m.after startAfter).map (·.2)) 0
 
 /-- the forced-recovery loop: ids already collected are skipped (a packet listed twice is
 recovered once); `acc` holds the packets collected so far, in order -/
